@@ -29,7 +29,7 @@ var verifTrace struct {
 	ids    map[*StringScanner]int
 	events int
 	inside map[*StringScanner]int // calls in progress that are traced as a whole (their inner calls are not)
-	max    int // VERIF_SCAN_TRACE_MAX: once that many lines are written no further instance is admitted (0 = no limit)
+	max    int                    // VERIF_SCAN_TRACE_MAX: once that many lines are written no further instance is admitted (0 = no limit)
 }
 
 func init() {
